@@ -4,8 +4,8 @@ import os, sys
 sys.path.insert(0, os.path.join(os.path.dirname(os.path.abspath(__file__)), "..", "tools"))
 from nqlib import run_standard
 
-RULE = ("every users/assign of up to %s lines drawn from a 16-line template set (simple, wildcard, duplicate, overlapping, mixed-case, uid 0, "
-        "uid wrapping to 0, malformed) compiled by the real qmail-newu.c main and compared byte-for-byte with the model cdbMake; for each table 23 probe "
+RULE = ("every users/assign of up to %s lines drawn from a 17-line template set (simple, wildcard, duplicate, overlapping, mixed-case, uid 0, "
+        "uid wrapping to 0, malformed incl. one colon short) compiled by the real qmail-newu.c main and compared byte-for-byte with the model cdbMake; for each table 23 probe "
         "local parts (hits, near-misses, case variants, extensions, null) delivered through the real spawn.c docmd() + qmail-lspawn.c spawn()/nughde_get() "
         "child with setgroups/setgid/setuid/getuid/execv/chdir/fork recorded and 9 single-call faults on a rotating basis; %s seeded random tables "
         "(1-40, 200-700 and 990-2200 entries) with raw cdb_seek lookups, probes derived from the table, and corrupted/truncated copies of the cdb; "
